@@ -137,10 +137,57 @@ pub fn read_facts_and_rules(file_name: &str) -> Result<Vec<String>, String> {
 /// # Reference
 /// https://doc.rust-lang.org/rust-by-example/std_misc/file/read_lines.html
 ///
+#[cfg(not(suiron_verif))]
 fn line_reader<P>(filename: P) -> io::Result<io::Lines<io::BufReader<File>>>
 where P: AsRef<Path>, {
     let file = File::open(filename)?;
     Ok(io::BufReader::new(file).lines())
+}
+
+/// Verification seam (compiled only with `--cfg suiron_verif`): the same
+/// line reader, except that the file is opened through `verif_io`, which
+/// lets a simulator supply the byte stream (and its faults) for chosen
+/// paths. Paths the simulator does not claim are opened with File::open
+/// exactly as above.
+#[cfg(suiron_verif)]
+fn line_reader<P>(filename: P)
+    -> io::Result<io::Lines<io::BufReader<Box<dyn io::Read>>>>
+where P: AsRef<Path>, {
+    let file: Box<dyn io::Read> = match verif_io::open(filename.as_ref()) {
+        Some(result) => result?,
+        None => Box::new(File::open(filename)?),
+    };
+    Ok(io::BufReader::new(file).lines())
+}
+
+/// Registry behind the `suiron_verif` reader seam.
+#[cfg(suiron_verif)]
+pub mod verif_io {
+    use std::cell::RefCell;
+    use std::io;
+    use std::path::Path;
+
+    /// Given a path, returns None (not simulated: open the real file) or
+    /// the result of opening a simulated file.
+    pub type Opener = Box<dyn Fn(&Path) -> Option<io::Result<Box<dyn io::Read>>>>;
+
+    thread_local! {
+        static OPENER: RefCell<Option<Opener>> = RefCell::new(None);
+    }
+
+    /// Installs (Some) or removes (None) the opener for this thread.
+    pub fn set_opener(opener: Option<Opener>) {
+        OPENER.with(|o| { *o.borrow_mut() = opener; });
+    }
+
+    pub fn open(path: &Path) -> Option<io::Result<Box<dyn io::Read>>> {
+        OPENER.with(|o| {
+            match &*o.borrow() {
+                Some(f) => f(path),
+                None => None,
+            }
+        })
+    }
 }
 
 /// Strips comments from a line.
